@@ -65,7 +65,7 @@ def explore(ctx: Ctx, want_live: bool = True) -> List[dict]:
             ctx.notes.append(f"scenario {name} not buildable as a game: {type(e).__name__}: {str(e)[:120]}")
             continue
         sim = game.simulation
-        rounds = ctx.scale(2, 6)
+        rounds = ctx.scale(2, 4)
         for rnd in range(rounds):
             vocab = rig._vocab(sim)
             if rnd:
@@ -77,7 +77,8 @@ def explore(ctx: Ctx, want_live: bool = True) -> List[dict]:
             records.append({"kind": "tree", "scenario": name, "round": rnd, "edges": snap.n_edges})
             routes = rm.get_request_types_recursively()
             fam: List[Tuple[str, List[Any], bool]] = []
-            pick = routes if ctx.thorough or len(routes) < 400 else [rng.choice(routes) for _ in range(400)]
+            cap = ctx.scale(400, 2500)
+            pick = routes if len(routes) <= cap else [rng.choice(routes) for _ in range(cap)]
             for r in pick:
                 fam.append(("route", r, True))
                 for m in rig.mutations(rng, r, k=ctx.scale(1, 3)):
